@@ -307,7 +307,7 @@ assert UT_SIZE == 384
 UT_WIDTH = {"line": 32, "user": 32, "host": 256}
 FIELD_KINDS_Q = ["empty", "short", "full", ":0", ":0.0", ":0.1"]
 FIELD_KINDS_T = ["full-1", "hi"]
-PIDTIME = [(1234, 1700000000, 0), (2**31 - 1, 2**31 - 1, 999999), (0, 0, 1), (-1, -1, 500000)]
+PIDTIME = [(1234, 1234567890, 0), (2**31 - 1, 2**31 - 1, 999999), (0, 0, 1), (-1, -1, 500000)]
 
 
 def ut_field(field, kind):
